@@ -266,11 +266,14 @@ func driver(args lib.Args, focus string) {
 			// quick tier: half of the programs run after interpreters that declared types, the
 			// other half after interpreters that did not (alternating with the seed); thorough: both
 			both := args.Tier == "thorough" || args.Replay != "" || focus != "" || hasTag(progs[s], "generated-names") || hasTag(progs[s], "infix") || hasTag(progs[s], "both-after")
+			// low bit of the order word: the process starts with interpreters of another configuration
+			// (child.go otherKindFirst); a program that gets both after-modes gets it exactly once
+			first := uint64((s + p + int(args.Seed)) % 2)
 			if both || (s+int(args.Seed))%2 == 0 {
-				jobs = append(jobs, job{"after", s, p, 1, rng.U64()})
+				jobs = append(jobs, job{"after", s, p, 1, rng.U64()&^1 | first})
 			}
 			if both || (s+int(args.Seed))%2 == 1 {
-				jobs = append(jobs, job{"afterclean", s, p, 1, rng.U64()})
+				jobs = append(jobs, job{"afterclean", s, p, 1, rng.U64()&^1 | (first ^ 1)})
 			}
 		}
 	}
